@@ -26,12 +26,11 @@ use std::sync::{Arc, RwLock, RwLockReadGuard, RwLockWriteGuard};
 // verification builds: a single-threaded cell with the same read()/write() surface; std's
 // poisoning `LockResult` carries the guard through an enum payload, which CBMC cannot
 // constant-propagate (every access through the guard becomes a weak update)
+// (and `Arc::default()` initialises in place through `MaybeUninit`, same problem)
 #[cfg(tikv_raft_rs_verif)]
 use crate::verif_shim::{
-    VLock as RwLock, VReadGuard as RwLockReadGuard, VWriteGuard as RwLockWriteGuard,
+    VArc as Arc, VLock as RwLock, VReadGuard as RwLockReadGuard, VWriteGuard as RwLockWriteGuard,
 };
-#[cfg(tikv_raft_rs_verif)]
-use std::sync::Arc;
 
 use crate::eraftpb::*;
 
